@@ -4,7 +4,7 @@
 # 2. applies the patch to /repo, runs ./check <PROP>, restores /repo
 set -u
 PROP=$1; MD=$2; PKG=$3; shift 3
-WT=/tmp/mut/$PROP
+WT=${WT_OVERRIDE:-${MUTROOT:-/tmp/mut}/$PROP}
 export GOFLAGS=-mod=mod GOPROXY=off GOSUMDB=off
 cd $WT || exit 9
 git checkout -q -- . ; git clean -qfd -e out
